@@ -6,7 +6,7 @@ from pcv.props import scc_common as sc
 
 P = "PcVerif.Props.C06."
 THEOREMS = [P + t for t in ["frame_pinned", "flash_rejected_iff", "tail4s_last", "tail4s_keeps_ended", "store_joins_iff", "timeOf_floor_zero", "instant_nondrop", "instant_drop", "word_counts_one_frame",
-                            "words_count_frames", "eoc_stamps_now"]]
+                            "words_count_frames", "eoc_stamps_now", "written_captions_start_and_end"]]
 TOL = Fraction(1, 1024)
 
 
